@@ -18,6 +18,11 @@ Oracles on the implementation's own behaviour (debug and release build):
       and 16 others: auto-escape callback, undefined behaviour, formatter, debug, fuel, recursion limit, loader, ...) are applied in
       every permutation of every 3-subset (sampled 4-subsets, longer sequences with repeated settings); the rendering through
       render_str and through add_template + get_template must be the model's / the specification's for the FINAL values (mode 3).
+  O7  source routes and re-add histories (mode 4): the same source bytes (CR, LF, CRLF, BOM, NUL, with/without trailing newline) through
+      render_str, render_named_str, template_from_str, template_from_named_str, add_template_owned, add_template, set_loader(closure) and
+      path_loader on a file written to .cache/c10-tmp must render as the model of those bytes; a template added again under its name
+      (same bytes, other bytes, after remove_template / clear_templates, both add APIs) after a whitespace / syntax setting changed
+      must render as the model for the settings in force at the time of the LAST add.
 """
 import os, sys, collections, itertools, json
 from concurrent.futures import ThreadPoolExecutor
@@ -524,6 +529,123 @@ def setter_cases(chk, rng, box):
 
 
 # ------------------------------------------------------------------------------------------------
+# SOURCE ROUTES and RE-ADD histories (mode 4): one Environment; the same source bytes through every way of handing a
+# template to the engine, and templates re-added under the same name after the settings changed.  Every rendering must be
+# the model's / the specification's for (those bytes, the settings in force when the template was compiled).
+# ------------------------------------------------------------------------------------------------
+ROUTE_NAMES = ["render_str", "render_named_str", "template_from_str", "template_from_named_str", "add_template_owned+get_template",
+               "add_template+get_template", "set_loader(closure)+get_template", "path_loader(file on disk)+get_template"]
+ROUTE_SPECIALS = [
+    [("text", "first\r\nsecond\r\n")], [("text", "first\r\nsecond\r\n\r\n")], [("text", "a\rb\r")], [("text", "\r\n")],
+    [("text", "﻿a\r\n"), ("tag", 1, 0, 0), ("text", "\r\nb\r")], [("text", "a\x00b\n")], [("text", "no newline at the end")],
+    [("tag", 0, 0, 0), ("text", "\r\n")], [("text", "x\r\n  "), ("tag", 1, 0, 0), ("text", "\r\ny\r\n"), ("tag", 2, 0, 1), ("text", " \r\n z\n\n")],
+    [("text", "l1\n\nl3\n"), ("raw", 0, 0, "\r\n raw \r\n", 0, 0), ("text", "\r\n")], [("text", " \r\n "), ("tag", 1, 0, 0)],
+]
+
+
+def with_prefix_text(segs):
+    if segs and segs[0][0] == "text": return [("text", "Z" + segs[0][1])] + list(segs[1:])
+    return [("text", "Z")] + list(segs)
+
+
+def dual_probes():
+    """source bytes that are a different, valid segment list under the default delimiters and under ERB-like ones"""
+    erb = FAM["erb"]; dfl = FAM["default"]
+    out = []
+    for a, b in [([("text", "a\n  "), ("tag", 0, 0, 0), ("text", "\n<%= 'V' %> \n")], [("text", "a\n  {{ 'V' }}\n"), ("tag", 0, 0, 0), ("text", " \n")]),
+                 ([("text", "x\r\n  "), ("tag", 1, 0, 0), ("text", "\r\n  <% set q = 1 %>\r\ny\r\n")], [("text", "x\r\n  {% set q = 1 %}\r\n  "), ("tag", 1, 0, 0), ("text", "\r\ny\r\n")])]:
+        assert unparse(dfl, a) == unparse(erb, b) and valid(dfl, a) and valid(erb, b)
+        out.append({0: a, 1: b})
+    return out
+
+
+def enc_routes(d, src, alt, ops):
+    out = [4, 0]
+    for x in d: out += S(x)
+    out += S(src) + S(alt) + [len(ops)]
+    for o in ops: out += list(o)
+    return out
+
+
+def routes_expect(ops):
+    """for every rendering op: (which source, syntax state, bits) or None = template not found"""
+    cur = [0, 0, 0, 0]
+    t = None
+    exp = []
+    def snap(which): return (which, cur[0], cur[1] | (cur[2] << 1) | (cur[3] << 2))
+    for op, a, b in ops:
+        if op == 0: cur[a] = b
+        elif op == 1: exp.append(snap(b))
+        elif op == 2: t = snap(b)
+        elif op == 3: exp.append(t)
+        elif op in (4, 5): t = None
+    return exp
+
+
+def rng_perm(rng, xs):
+    xs = list(xs)
+    for i in range(len(xs) - 1, 0, -1):
+        j = rng.below(i + 1); xs[i], xs[j] = xs[j], xs[i]
+    return xs
+
+
+def routes_cases(chk, rng, box):
+    duals = dual_probes()
+    def settings_ops(state):
+        ops = []
+        for i in rng_perm(rng, [0, 1, 2, 3]):
+            if i == 0: ops.append((0, 0, state))
+            elif rng.below(4): ops.append((0, i, rng.below(2)))
+        return ops
+    def pick_probe():
+        w = rng.below(10)
+        if w < 2:
+            return "erb", rng.choice(duals), None
+        fam = rng.choice(["default", "erb", "angle", "latex", "ov-html", "ov-hash"])
+        st = 0 if fam == "default" else 1
+        if w < 5: segs = rng.choice(ROUTE_SPECIALS)
+        else: segs = rng.choice(box)
+        if not segs or not valid(FAM[fam], segs): segs = ROUTE_SPECIALS[0]
+        return fam, {st: segs}, st
+    n_routes = 20000 if chk.thorough else 1500
+    n_readd = 40000 if chk.thorough else 4000
+    for k in range(n_routes + n_readd):
+        fam, segs_by_state, fixed = pick_probe()
+        d = FAM[fam]
+        dual = fixed is None
+        st0 = rng.below(2) if dual else fixed
+        dstate = lambda st: (d if st == 1 else FAM["default"])
+        src = unparse(dstate(st0), segs_by_state[st0])
+        alt_by_state = {st: with_prefix_text(sg) for st, sg in segs_by_state.items()}
+        alt = unparse(dstate(st0), alt_by_state[st0])
+        ops = settings_ops(st0)
+        if k < n_routes:
+            for r in rng_perm(rng, list(range(8))): ops.append((1, r, 0))
+            if rng.below(2): ops += [(0, 1 + rng.below(3), rng.below(2)), (1, 7, 0), (1, rng.below(8), 1)]
+        else:
+            a1, a2 = rng.below(2), rng.below(2)
+            ops += [(2, a1, 0), (3, 0, 0)]
+            changed = False
+            for i in rng_perm(rng, [0, 1, 2, 3]):
+                if rng.below(2) == 0: continue
+                if i == 0:
+                    if dual: ops.append((0, 0, 1 - st0)); changed = True
+                else:
+                    ops.append((0, i, rng.below(2))); changed = True
+            if not changed: ops.append((0, 1 + rng.below(3), 1))
+            v = rng.below(6)
+            if v == 0: ops += [(2, a2, 0), (3, 0, 0)]                                   # re-add the same bytes
+            elif v == 1: ops += [(4, 0, 0), (3, 0, 0), (2, a2, 0), (3, 0, 0)]           # remove, add
+            elif v == 2: ops += [(2, a2, 1), (3, 0, 0), (2, a1, 0), (3, 0, 0)]          # another source under the name, then the first again
+            elif v == 3: ops += [(3, 0, 0), (2, a2, 0), (3, 0, 0), (2, a1, 0), (3, 0, 0)]   # stale render, re-add twice
+            elif v == 4: ops += [(5, 0, 0), (3, 0, 0), (2, a2, 0), (3, 0, 0)]           # clear_templates, add
+            else: ops += [(2, a2, 0), (3, 0, 0), (0, 1 + rng.below(3), rng.below(2)), (2, a1, 0), (3, 0, 0), (1, rng.below(8), 0)]
+        yield {"family": fam, "delimiters": d, "src": src, "alt": alt, "ops": [list(o) for o in ops],
+               "segs": {str(st): [list(x) for x in sg] for st, sg in segs_by_state.items()},
+               "alt_segs": {str(st): [list(x) for x in sg] for st, sg in alt_by_state.items()}}
+
+
+# ------------------------------------------------------------------------------------------------
 # running one batch through implementation (debug, release), model, specification, theorem domain
 # ------------------------------------------------------------------------------------------------
 def run_batch(cases):
@@ -604,13 +726,15 @@ def main():
     # meta = (family name | explicit delimiter list, bits, segs) for mode 0; ("src", d, bits, src) for mode 1
     replay_history = None
     replay_setters = None
+    replay_routes = None
     if chk.replay:
         rp0 = json.load(open(chk.replay))["replay"]
         if "history" in rp0: replay_history = rp0["history"]
         if "setters" in rp0: replay_setters = rp0["setters"]
+        if "routes" in rp0: replay_routes = rp0["routes"]
 
     def gen_metas():
-        if replay_history is not None or replay_setters is not None:
+        if replay_history is not None or replay_setters is not None or replay_routes is not None:
             return
         if chk.replay:
             rp = json.load(open(chk.replay))["replay"]
@@ -958,6 +1082,67 @@ def main():
                     old = viol.get(key)
                     if old is None or len(old[1]["setters"]["ops"]) > len(ops): viol[key] = (None, det)
 
+
+    # SOURCE ROUTES / RE-ADD: the same bytes through every route; templates re-added after reconfiguration
+    if replay_routes is not None: rcases = [replay_routes]
+    elif chk.replay: rcases = []
+    else: rcases = list(routes_cases(chk, rng, [x for x in itertools.islice(box3(False), 0, 60000, 41)]))
+    n_route_renders = 0
+    if rcases:
+        tmpdir = os.path.join(CACHE, "c10-tmp"); os.makedirs(tmpdir, exist_ok=True)
+        renv = dict(ENV, MJVERIF_TMP=tmpdir)
+        renc = [enc_routes(r["delimiters"], r["src"], r["alt"], [tuple(o) for o in r["ops"]]) for r in rcases]
+        exps = [routes_expect([tuple(o) for o in r["ops"]]) for r in rcases]
+        singles, sidx = [], {}
+        for k, r in enumerate(rcases):
+            for e in exps[k]:
+                if e is None or (k, e) in sidx: continue
+                which, st, bits = e
+                segs = [tuple(x) for x in (r["alt_segs"] if which else r["segs"])[str(st)]]
+                sidx[(k, e)] = len(singles); singles.append(enc(bits, r["delimiters"] if st == 1 else FAM["default"], segs))
+        with ThreadPoolExecutor(max_workers=4) as ex:
+            fd = ex.submit(run_lines, [bin_path("c10", False)], renc, env=renv); fr = ex.submit(run_lines, [bin_path("c10", True)], renc, env=renv)
+            fm = ex.submit(run_model, "C10", "c10", singles); fs = ex.submit(run_model, "C10", "c10-spec", singles)
+            rres = {False: fd.result(), True: fr.result()}; rmod = fm.result(); rspec = fs.result()
+        evaluations += 2 * len(renc)
+        names = {0: lambda o: "%s(%d)" % (SETTER_NAMES[o[1]], o[2]), 1: lambda o: "render %s via %s" % ("alt" if o[2] else "src", ROUTE_NAMES[o[1]]),
+                 2: lambda o: "%s(\"t\", %s)" % ("add_template" if o[1] else "add_template_owned", "alt" if o[2] else "src"),
+                 3: lambda o: "render \"t\"", 4: lambda o: "remove_template(\"t\")", 5: lambda o: "clear_templates()"}
+        for k, r in enumerate(rcases):
+            hist["class=re-add" if any(o[0] == 2 for o in r["ops"]) else "class=routes"] += 1
+            want = []
+            for e in exps[k]:
+                if e is None: want.append(([1, 5], None)); continue      # TemplateNotFound
+                mr = split_impl(rmod[sidx[(k, e)]]); er, _ = split_spec(rspec[sidx[(k, e)]])
+                want.append((mr[0] if mr and mr[0] == er else None, e))
+            n_route_renders += len(want)
+            for rel in (False, True):
+                out = rres[rel][k]
+                got, ok = [], bool(out) and out[0] == 6 and out[1] == len(want)
+                if ok:
+                    i = 2
+                    for _ in range(out[1]):
+                        n = (2 + out[i + 1]) if out[i] == 0 else 2
+                        got.append(out[i:i + n]); i += n
+                bad_at = None if ok else -1
+                if ok:
+                    for j, (w, e) in enumerate(want):
+                        if w is None or got[j] != w: bad_at = j; break
+                if bad_at is not None:
+                    rend = [o for o in r["ops"] if o[0] in (1, 3)]
+                    op = rend[bad_at] if 0 <= bad_at < len(rend) else None
+                    key = ("route:" + ROUTE_NAMES[op[1]]) if op and op[0] == 1 else "re-add"
+                    det = {"routes": r, "case": renc[k], "steps": [names[o[0]](o) for o in r["ops"]], "profile": "release" if rel else "debug",
+                           "failing_rendering_index": bad_at, "failing_step": names[op[0]](op) if op else None,
+                           "compiled_under(which source, custom syntax, settings bits)": list(want[bad_at][1]) if 0 <= bad_at < len(want) and want[bad_at][1] else None,
+                           "implementation": got[bad_at] if 0 <= bad_at < len(got) else out, "expected": want[bad_at][0] if 0 <= bad_at < len(want) else None,
+                           "what": ("the rendering depends on the route by which the source reached the engine" if key.startswith("route:") else
+                                    "a template added again under its name does not reflect the settings in force when it was added"),
+                           "how": "./check C10 --replay <this file>"}
+                    if out and out[0] in ("CRASH", 2): det["what"] = "the engine panicked"
+                    old = viol.get(key)
+                    if old is None or len(old[1]["routes"]["ops"]) > len(r["ops"]): viol[key] = (None, det)
+
     # kernel cross-check of the extraction
     kern_ok, kern_n = True, 0
     if model_sample:
@@ -978,6 +1163,8 @@ def main():
     chk.cov["family_pairs_compared"] = fam_pairs
     chk.cov["history_sequences"] = len(hcases)
     chk.cov["setter_orders"] = len(scases)
+    chk.cov["route_and_readd_histories"] = len(rcases)
+    chk.cov["route_and_readd_renderings_compared"] = n_route_renders
     chk.cov["history_uses_compared"] = h_uses
     chk.cov["distribution"] = dict(hist)
     chk.cov["samples"] = samples + src_samples
